@@ -71,6 +71,26 @@ def run(ctx, res):
                              {"flavour": fl, "step": k, "pre_image": "independent writer, 112 live entries on %d side(s)" % nfull}, tool_made=False)
             if raw is None:
                 break
+    # histories on the bundled real image, whose sides 1-3 were never formatted (all FF): additions reach them by --eos and by overflow
+    from common import REPO
+    for fl in ("fd", "sd"):
+        pth = os.path.join(REPO, "tests", "data", f"10_lsystem_mo5__2023-10-14.{fl}")
+        if not os.path.exists(pth):
+            continue
+        for variant in range(ctx.n(2, 8)):
+            raw = open(pth, "rb").read()
+            sc = K.Scenario(ctx, fl)
+            with open(os.path.join(sc.dir, sc.archive), "wb") as f:
+                f.write(raw)
+            used = set()
+            for k in range(rng.choice([2, 3, 4])):
+                items = E.gen_items(rng, used, shape=rng.choice(["eos_mix", "big", "overflow", "few", "fill_exact"]))
+                if k == 0:
+                    items = [("eos",)] * (1 + variant % 3) + items
+                raw = E.run_step(ctx, res, "never_formatted_sides", sc, "add", rng.random() < 0.5, items, raw, CL,
+                                 {"flavour": fl, "step": k, "pre_image": "bundled real image, sides 1-3 all FF"}, tool_made=False)
+                if raw is None:
+                    break
     # small scope: all histories of depth <= 2 (quick) / 3 (thorough) over a 9-letter alphabet of single-batch steps
     alphabet = [("0", [0]), ("s", [255]), ("b", [2040]), ("b+", [2041]), ("t", [2040 * 40]), ("F", [2040 * 157]), ("F+", [2040 * 157 + 1]), ("X", [330000]), ("eos2", None)]
     depth = 3 if ctx.thorough else 2
